@@ -33,13 +33,13 @@ m = dict(
                source_commits=[], add_only=True),
     engines=[
         dict(name="vsched+vexplore", path="engine/vs.c", serves_properties=[p for p in claimed["claimed"] if vcheck.CHECKS[p]["kind"] == "sched"],
-             kind_free_text="cooperative scheduler + virtual clock interposed at link time under the unmodified library; deviation-bounded DFS over choice prefixes, fork per execution, 16 workers, replay before report"),
+             kind_free_text="cooperative scheduler + virtual clock interposed at link time under the unmodified library (scheduling points: lock, every unlock, cond, thread, epoll, sleep, optionally atomics and allocator calls); deviation-bounded DFS over choice prefixes, fork per execution, 16 workers, replay before report"),
         dict(name="vbfs", path="engine/vbfs.h", serves_properties=["C17", "C18"], kind_free_text="crash-tolerant explicit-state BFS over real source files compiled into the harness, structural-state dedup"),
-        dict(name="venum", path="engine/venum.h", serves_properties=["C19"], kind_free_text="crash-tolerant parallel exhaustive enumeration of an indexed input space"),
+        dict(name="venum", path="engine/venum.h", serves_properties=["C19", "C16"], kind_free_text="crash-tolerant parallel exhaustive enumeration of an indexed input space"),
         dict(name="vpeer", path="engine/vpeer.c", serves_properties=[], kind_free_text="raw wire peers over socket:// + socketpair"),
         dict(name="valloc", path="engine/valloc.c", serves_properties=[], kind_free_text="accounting allocator via nng_init_params; fail chosen allocation")],
     checks=checks,
-    notes="All checks decide by exhaustive enumeration within stated bounds on the real code (see DESIGN.md). known_findings.json lists fixed and known genuine defects.",
+    notes="All checks decide by exhaustive enumeration within stated bounds on the real code (see DESIGN.md; build report in section 13, last results in RESULTS.md). known_findings.json lists fixed and known genuine defects; seeded/ holds the confirmed property-breaking changes and seeded/MATRIX.md which check catches which; vcheck.py tsan CNN is a free-running ThreadSanitizer pass over the same harness bodies (assumption validator, not a deciding check).",
     not_applicable=na)
 json.dump(m, open(os.path.join(V, "MANIFEST.json"), "w"), indent=1)
 print("MANIFEST.json:", len(checks), "checks,", len(na), "not claimed")
